@@ -41,6 +41,11 @@ class Validator():
 
     def validate(self, json):
         problems = []
+        if not isinstance(json, dict):
+            # The root (like every node that has a role) must be a JSON object
+            problems.append(f"{self.parser.root} must be a JSON object")
+            return problems
+
         validator = NodeValidator(self.parser)
         validator.validate_node(json, self.parser.root, [self.parser.root], problems)
         return problems
@@ -127,7 +132,8 @@ class NodeValidator():
         #print()
         #print(f"validate_node {node} {path} {roles} {problems}")
 
-        if not node or not isinstance(node, dict):
+        # N.B. an empty object is validated too: it lacks every required field
+        if not isinstance(node, dict):
             return
 
         # May have more roles based on field presence/value etc
